@@ -35,6 +35,10 @@ pub enum Terminal {
 pub enum Preset {
     DiagNuts,
     DiagMclmc,
+    LowRankNuts,
+    LowRankMclmc,
+    FlowNuts,
+    FlowMclmc,
 }
 
 #[derive(Clone, Debug)]
@@ -99,6 +103,25 @@ pub fn mclmc_settings(scn: &Scenario) -> DiagMclmcSettings {
         store_unconstrained: true,
         ..Default::default()
     }
+}
+
+pub fn lowrank_nuts_settings(scn: &Scenario) -> nuts_rs::LowRankNutsSettings {
+    nuts_rs::LowRankNutsSettings { num_tune: scn.num_tune, num_draws: scn.num_draws, maxdepth: 2, num_chains: scn.chains, seed: scn.seed, store_unconstrained: true, store_gradient: true, store_divergences: true, ..Default::default() }
+}
+
+pub fn flow_nuts_settings(scn: &Scenario) -> nuts_rs::FlowNutsSettings {
+    nuts_rs::FlowNutsSettings { num_tune: scn.num_tune, num_draws: scn.num_draws, maxdepth: 2, num_chains: scn.chains, seed: scn.seed, store_unconstrained: true, store_gradient: true, store_divergences: true, ..Default::default() }
+}
+
+pub fn lowrank_mclmc_settings(scn: &Scenario) -> nuts_rs::LowRankMclmcSettings {
+    nuts_rs::LowRankMclmcSettings { num_tune: scn.num_tune, num_draws: scn.num_draws, num_chains: scn.chains, seed: scn.seed, step_size: 0.5, momentum_decoherence_length: 1.0, trajectory_kind: MclmcTrajectoryKind::Microcanonical, store_unconstrained: true, ..Default::default() }
+}
+
+pub fn flow_mclmc_settings(scn: &Scenario) -> nuts_rs::FlowMclmcSettings {
+    let mut s = nuts_rs::FlowMclmcSettings { num_tune: scn.num_tune, num_draws: scn.num_draws, num_chains: scn.chains, seed: scn.seed, step_size: 0.5, momentum_decoherence_length: 1.0, trajectory_kind: MclmcTrajectoryKind::Microcanonical, store_unconstrained: true, ..Default::default() };
+    // keep the step size fixed: the flow preset would otherwise adapt it with dual averaging
+    s.adapt_options.step_size_settings.adapt_options.method = nuts_rs::StepSizeAdaptMethod::Fixed(0.5);
+    s
 }
 
 #[derive(Clone, Debug)]
@@ -380,6 +403,10 @@ pub fn run_body(scn: &Scenario) {
     match scn.preset {
         Preset::DiagNuts => run_with(scn, nuts_settings(scn)),
         Preset::DiagMclmc => run_with(scn, mclmc_settings(scn)),
+        Preset::LowRankNuts => run_with(scn, lowrank_nuts_settings(scn)),
+        Preset::LowRankMclmc => run_with(scn, lowrank_mclmc_settings(scn)),
+        Preset::FlowNuts => run_with(scn, flow_nuts_settings(scn)),
+        Preset::FlowMclmc => run_with(scn, flow_mclmc_settings(scn)),
     }
 }
 
@@ -389,5 +416,9 @@ pub fn reference(scn: &Scenario, chain: usize) -> RefOutcome {
         Preset::DiagMclmc => {
             sequential_reference(&mclmc_settings(scn), scn.chains, chain, &scn.plan)
         }
+        Preset::LowRankNuts => sequential_reference(&lowrank_nuts_settings(scn), scn.chains, chain, &scn.plan),
+        Preset::LowRankMclmc => sequential_reference(&lowrank_mclmc_settings(scn), scn.chains, chain, &scn.plan),
+        Preset::FlowNuts => sequential_reference(&flow_nuts_settings(scn), scn.chains, chain, &scn.plan),
+        Preset::FlowMclmc => sequential_reference(&flow_mclmc_settings(scn), scn.chains, chain, &scn.plan),
     }
 }
